@@ -93,6 +93,7 @@ type c14bCall struct {
 	Cur   string // phase the handler reports while the filter runs
 	Ret   string
 	Extra string
+	Seq   int // order of the log entries (filter calls are logged when they return, terminations when TerminateStream returned)
 }
 
 func (c c14bCall) String() string {
@@ -114,6 +115,7 @@ type c14bAsync struct {
 	OK       bool
 	Attempts int   // upstream request frames of the request on the wire when TerminateStream returned
 	AtMs     int64 // virtual time of the call
+	Seq      int
 }
 
 var c14bCur struct {
@@ -124,6 +126,7 @@ var c14bCur struct {
 	access  []c14bAccess
 	async   []c14bAsync
 	errs    []string
+	seq     int
 }
 
 type c14bObsFactory struct{}
@@ -285,7 +288,8 @@ func (f *c14bFilter) OnReceive(ctx context.Context, headers api.HeaderMap, buf a
 				})
 			}
 			ok := rh.TerminateStream(code)
-			c14bCur.async = append(c14bCur.async, c14bAsync{Idx: idx, Req: req, OK: ok, Attempts: frames(), AtMs: int64(vrt.Now() / time.Millisecond)})
+			c14bCur.seq++
+			c14bCur.async = append(c14bCur.async, c14bAsync{Idx: idx, Req: req, OK: ok, Attempts: frames(), AtMs: int64(vrt.Now() / time.Millisecond), Seq: c14bCur.seq})
 		})
 	case "append":
 		// the receive filter writes the response itself through the handler's Append* methods (the stream ends there)
@@ -311,7 +315,8 @@ func (f *c14bFilter) OnReceive(ctx context.Context, headers api.HeaderMap, buf a
 		f.rh.SetRequestHeaders(f.rh.GetRequestHeaders())
 		f.rh.SetRequestTrailers(f.rh.GetRequestTrailers())
 	}
-	c14bCur.calls = append(c14bCur.calls, c14bCall{Kind: "recv", Idx: f.idx, Req: f.req, Phase: f.spec.Phase, Cur: cur, Ret: string(ret), Extra: extra})
+	c14bCur.seq++
+	c14bCur.calls = append(c14bCur.calls, c14bCall{Kind: "recv", Idx: f.idx, Req: f.req, Phase: f.spec.Phase, Cur: cur, Ret: string(ret), Extra: extra, Seq: c14bCur.seq})
 	return ret
 }
 
@@ -386,7 +391,7 @@ func c14bInstall(cs *c14bCase) func() {
 	c14bRegister()
 	hpFilterHook = func(sc *hpScenario, h *hpRun) {
 		c14bCur.cs, c14bCur.run, c14bCur.created = cs, h, 0
-		c14bCur.calls, c14bCur.access, c14bCur.errs, c14bCur.async = nil, nil, nil, nil
+		c14bCur.calls, c14bCur.access, c14bCur.errs, c14bCur.async, c14bCur.seq = nil, nil, nil, nil, 0
 		// JSON text -> []v2.Filter -> stream filter manager -> api.CreateStreamFilterChainFactory(type, config)
 		var cfg []v2.Filter
 		if err := stdjson.Unmarshal(c14bFilterConfigs(cs), &cfg); err != nil {
@@ -914,6 +919,9 @@ func c14bCheckReq(cs *c14bCase, k int, obs *hpObs, allCalls []c14bCall, access [
 			if a.Req == k && a.OK {
 				won = true
 			}
+		}
+		if attempts > 0 && c14bTerminatedWhileFiltering(k) {
+			report("asynchronous TerminateStream: request forwarded upstream although the termination had succeeded before the receive filters finished", fmt.Sprintf("%+v, %d upstream request frames; filters: %s", c14bCur.async, attempts, logStr))
 		}
 		if attempts > 1 {
 			report("request forwarded upstream more than once", fmt.Sprintf("%d upstream request frames; filters: %s", attempts, logStr))
@@ -1705,8 +1713,12 @@ func c14bCheckAsyncRetry(cs *c14bCase, k int, obs *hpObs, down []hpFrame, send [
 			}
 		}
 	}
-	if ta != nil && ta.OK && ta.Attempts == 0 && attempts > 0 {
-		report("asynchronous TerminateStream: request forwarded upstream after a termination that succeeded before anything had left", ctx)
+	// a termination that succeeded while the receive filters were still running (TerminateStream returned before a
+	// receive filter of the request returned) is seen by the proxy before it forwards: never forwarded afterwards.
+	// (One that succeeds later races with the forward itself - observed with 2 deviations: TerminateStream reports
+	// success with nothing written yet and the frame still leaves - there is no order to hold the proxy to.)
+	if attempts > 0 && c14bTerminatedWhileFiltering(k) {
+		report("asynchronous TerminateStream: request forwarded upstream although the termination had succeeded before the receive filters finished", ctx)
 	}
 	if f.Status == bolt.ResponseStatusSuccess && (f.Token != token || f.BodyToken != token) && !c14bHas(cs.Chain, "replace") {
 		report("asynchronous TerminateStream: success response carries another exchange's header or body", fmt.Sprintf("token %q body %q; %s", f.Token, f.BodyToken, ctx))
@@ -1728,6 +1740,22 @@ func c14bCheckAsyncRetry(cs *c14bCase, k int, obs *hpObs, down []hpFrame, send [
 	if !ok {
 		report("a response reached the client without passing the send filters once in order per processed response", fmt.Sprintf("send filters called %v, chain %v, %d tries; %s", got, expSend, attempts, ctx))
 	}
+}
+
+// c14bTerminatedWhileFiltering: TerminateStream reported success for request k before one of its receive filters returned
+func c14bTerminatedWhileFiltering(k int) bool {
+	lastRecv := 0
+	for _, c := range c14bCur.calls {
+		if c.Kind == "recv" && c.Req == k && c.Seq > lastRecv {
+			lastRecv = c.Seq
+		}
+	}
+	for _, a := range c14bCur.async {
+		if a.Req == k && a.OK && a.Seq < lastRecv {
+			return true
+		}
+	}
+	return false
 }
 
 // asynchronous TerminateStream x retries: the route retries (retry_on, 1-2 retries, 2 hosts), the first try is
@@ -1790,6 +1818,9 @@ func c14bRun(p *vreport.Part, cs c14bCase, replay bool) bool {
 	defer c14bInstall(&cs)()
 	obs := &hpObs{}
 	opts := vrt.Options{Bound: cs.Sc.Bound, Delay: true, MaxSteps: 200000, MaxExecs: vreport.Pick(3000, 30000), Deadline: time.Now().Add(20 * time.Minute)}
+	if cs.Group == "async-retry" {
+		opts.MaxExecs = vreport.Pick(3000, 300000) // retried requests have ~250 scheduling points: 2 deviations need more room
+	}
 	if replay {
 		opts.Replay = true
 		opts.Prefix = cs.Sc.Choices
@@ -1827,6 +1858,16 @@ func c14bRun(p *vreport.Part, cs c14bCase, replay bool) bool {
 			p.Count("requests "+c14bReqClass(&cs, k, obs), 1)
 		}
 		p.Count("executions of group "+cs.Group, 1)
+		for k := range cs.Sc.Requests {
+			for _, a := range c14bCur.async {
+				if a.Req == k {
+					p.Count(fmt.Sprintf("async TerminateStream returned %v with %d upstream frames written", a.OK, a.Attempts), 1)
+				}
+			}
+			if c14bTerminatedWhileFiltering(k) {
+				p.Count("async TerminateStream succeeded while the receive filters were still running", 1)
+			}
+		}
 		p.Outcome(c14bOutcomeClass(&cs, obs, calls) + "|" + strings.Join(down, ",") + "|" + strings.Join(acc, ","))
 		if p.WantSample() {
 			p.Sample(map[string]interface{}{"scenario": cs.Name, "schedule": r.Choices, "filter_calls": c14bCallsStr(calls), "downstream": down, "upstream_attempts": obs.Attempts, "access_log": acc})
@@ -1939,6 +1980,6 @@ func TestVerifXC14Builtin(t *testing.T) {
 	}
 	p.Note("scenarios", n)
 	p.Note("scenarios_total", len(scs))
-	p.End(complete, fmt.Sprintf("%d of %d scenarios (this shard): built-in filters alone (fault_inject %d configurations x headers, ip_access %d configurations x %d sources + header-carried address, payload_limit 2 key spellings x 5 limits x 3 statuses x body/no body, route-level overrides), chains of 2-3 of {fault_inject, ip_access, payload_limit, one scripted filter} in every order, scripted API verdicts (hijack with body, TerminateStream from the filter and from another goroutine, receiver-side Append*, SetRequestData, send-side replacement), two requests in flight; upstream {reply, close, silent}; all schedules with <=%d deviation (thorough: <=2 where every request is denied or terminated)", n, len(scs), len(c14bFaultConfigs), len(c14bIPConfigs), len(c14bSources), bound),
+	p.End(complete, fmt.Sprintf("%d of %d scenarios (this shard): built-in filters alone (fault_inject %d configurations x headers, ip_access %d configurations x %d sources + header-carried address, payload_limit 2 key spellings x 5 limits x 3 statuses x body/no body, route-level overrides), chains of 2-3 of {fault_inject, ip_access, payload_limit, one scripted filter} in every order, scripted API verdicts (hijack with body, TerminateStream from the filter and from another goroutine, receiver-side Append*, SetRequestData, send-side replacement), two requests in flight, asynchronous TerminateStream (403/500; at once / gated on the 1st / 2nd upstream frame / the response) x retried requests (retry_on 1-2, 2 hosts, first try busy / error / close, then ok / silent); upstream {reply, close, silent}; all schedules with <=%d deviation (thorough: <=2 where every request is denied or terminated and for the core termination x retry scenarios)", n, len(scs), len(c14bFaultConfigs), len(c14bIPConfigs), len(c14bSources), bound),
 		"every chain is configured as JSON through the stream-filter manager (real factories) and run on the real proxy; the decision of each built-in filter is predicted by a reference model written from its configuration semantics; upstream bytes, downstream frames, scripted filters' call log and the per-stream access log are compared with the statement; distinct = distinct (scenario, call log, downstream frames)")
 }
